@@ -655,6 +655,8 @@ fn exec_call_inner(ctx: &mut Ctx, idx: usize, c: &Value, keep: &mut Option<Owned
                 v
             }
         }
+        (_, "capi_arg") => crate::capi_cases::arg_case(ctx.root_raw, c),
+        (_, "capi_copy") => crate::capi_cases::copy_case(ctx.root_raw, c),
         (_, "errtab_concurrent") => crate::errtab::concurrent(c),
         (_, "errtab_birthday") => crate::errtab::birthday(c),
         _ => json!({"ok": false, "skip": format!("unknown op {api}/{op}")}),
